@@ -641,14 +641,32 @@ theorem conflict_marker_pin :
     Generated.StringFormats.conflictPrefix = lit "#-#-#-#-#  " ∧ Generated.StringFormats.conflictSuffix = lit "  #-#-#-#-#" := by
   decide
 
-/-- PIN: the `range:` flag syntax, the flag prefixes and the conflict pairs -/
+/-- PIN: the `range:` flag syntax; the flag prefixes and the conflict pairs AS SETS (their order in the source is immaterial:
+    the pairs are independent rules, and by `prefixes_unambiguous` at most one prefix can classify a flag) -/
 theorem flag_syntax_pin :
     Generated.StringFormats.rangePrefix = lit "range:" ∧ Generated.StringFormats.rangeSep = lit ".." ∧
     Generated.StringFormats.rangeStrip = [32, 9, 13, 12, 11] ∧
     Generated.StringFormats.rangeDigits1 = [(48, 57)] ∧ Generated.StringFormats.rangeDigits2 = [(48, 57)] ∧
-    Generated.StringFormats.formatPrefixes = [lit "no-", lit "possible-", lit "impossible-", []] ∧
-    Generated.StringFormats.conflictPairs = [([], lit "no"), ([], lit "impossible"), (lit "possible", lit "impossible")] := by
-  decide
+    (∀ p, p ∈ Generated.StringFormats.formatPrefixes ↔ p ∈ [lit "no-", lit "possible-", lit "impossible-", []]) ∧
+    (∀ pn, pn ∈ Generated.StringFormats.conflictPairs ↔
+      pn ∈ [([], lit "no"), ([], lit "impossible"), (lit "possible", lit "impossible")]) := by
+  refine ⟨by decide, by decide, by decide, by decide, by decide, ?_, ?_⟩
+  · have h1 : Generated.StringFormats.formatPrefixes.all (fun p => [lit "no-", lit "possible-", lit "impossible-", []].contains p) = true := by decide
+    have h2 : [lit "no-", lit "possible-", lit "impossible-", []].all (fun p => Generated.StringFormats.formatPrefixes.contains p) = true := by decide
+    simp only [List.all_eq_true, List.contains_eq_mem, decide_eq_true_eq] at h1 h2
+    exact fun p => ⟨h1 p, h2 p⟩
+  · have h1 : Generated.StringFormats.conflictPairs.all
+        (fun p => [(([] : Str), lit "no"), ([], lit "impossible"), (lit "possible", lit "impossible")].contains p) = true := by decide
+    have h2 : [(([] : Str), lit "no"), ([], lit "impossible"), (lit "possible", lit "impossible")].all
+        (fun p => Generated.StringFormats.conflictPairs.contains p) = true := by decide
+    simp only [List.all_eq_true, List.contains_eq_mem, decide_eq_true_eq] at h1 h2
+    exact fun p => ⟨h1 p, h2 p⟩
+
+/-- PIN: no format name of the data file starts with a non-empty flag prefix — so a flag `<prefix><fmt>-format` has exactly one
+    reading, whatever the order of the prefix loop -/
+theorem prefixes_unambiguous :
+    Generated.StringFormats.stringFormats.all (fun f =>
+      Generated.StringFormats.formatPrefixes.all fun p => p.isEmpty || !startsWith p f.1) = true := by decide
 
 /-- PIN: the XML gate is `type: Content of: ` followed by `<name>`s with the XML 1.0 NameStartChar / NameChar classes -/
 theorem xml_gate_pin :
@@ -729,8 +747,7 @@ theorem format_flag_shape_live {f tp fmt : Str} (h : flagKind liveFlagEnv f = .f
   have hempty : liveFlagEnv.isFormat [] = false := by decide
   obtain ⟨p, hp, h1, h2, h3⟩ := format_flag_shape hempty h
   refine ⟨p, ?_, h1, h2, h3⟩
-  have : liveFlagEnv.prefixes = [lit "no-", lit "possible-", lit "impossible-", []] := flag_syntax_pin.2.2.2.2.2.1
-  rw [← this]; exact hp
+  exact (flag_syntax_pin.2.2.2.2.2.1 p).mp hp
 
 /-- FILE LEVEL (the clause as stated): some entry of the file gets `duplicate-message-definition` ⇔ two non-obsolete,
     non-header entries of the file share msgid and msgctxt -/
